@@ -97,6 +97,29 @@ def check_C07(run: Run):
                 pr = O.impl_parse(txt)
                 if pr["err"] is not None: run.violation(f"parser rejects default gate {name}: {txt!r}", {"text": txt})
                 elif W.diff(pr["v"]["stmts"][0], a["v"], 1e-12): run.violation(f"{name}: parser builds a different gate than the direct call", {"text": txt})
+    # the parser applied to multi-element operands (index lists, ranges, whole variables): one standard gate per element
+    for name in names:
+        sig = GATE_SIG.get(name)
+        if sig is None: continue
+        nq_ = sig.count("q")
+        p = rng.choice(thetas[:40]) if "f" in sig else (rng.choice([1, 2, 3]) if "i" in sig else None)
+        if isinstance(p, float) and not (1e-4 < abs(p) < 1e3): p = 0.75
+        ptxt = f"({p!r})" if "f" in sig else (f"({p})" if "i" in sig else "")
+        for form in ("list", "range", "var"):
+            if nq_ == 1:
+                ops_txt, elems = {"list": ("q[0, 2, 3]", [(0,), (2,), (3,)]), "range": ("q[1:3]", [(1,), (2,), (3,)]), "var": ("q", [(0,), (1,), (2,), (3,)])}[form]
+            else:
+                ops_txt, elems = {"list": ("q[0, 1, 2], q[3, 2, 0]", [(0, 3), (1, 2), (2, 0)]), "range": ("q[0:1], q[2:3]", [(0, 2), (1, 3)]), "var": ("q[0, 1], q[3, 2]", [(0, 3), (1, 2)])}[form]
+            txt = f"version 3.0\nqubit[4] q\n{name}{ptxt} {ops_txt}\n"
+            pr = O.impl_parse(txt)
+            run.count({"multi": name, "form": form}, tag="parser-multi")
+            if pr["err"] is not None: run.violation(f"parser rejects {name} on a multi-element operand: {txt!r} ({pr['err']})", {"text": txt}); continue
+            exp_ = []
+            for e_ in elems:
+                args = [["q", o] for o in e_] + ([["f", p]] if "f" in sig else []) + ([["i", p]] if "i" in sig else [])
+                exp_.append(O.impl_named(name, args)["v"])
+            d_ = W.diff(pr["v"]["stmts"], exp_, 1e-12)
+            if d_: run.violation(f"{name} on a multi-element operand is not one standard gate per element: {d_}", {"text": txt})
     # aliases
     for al, f in default_gate_aliases.items():
         bl = CircuitBuilder(2); getattr(bl, al)(1)
@@ -196,6 +219,26 @@ def check_C08(run: Run):
         d = float(np.abs(A - B).max())
         if d > 1e-9: run.violation(f"matrix differs from the textbook embedding by {d:.3g}", c)
         if not R.is_unitary(A, 1e-7): run.violation("matrix of a gate is not unitary", c)
+    # a builder that refused an out-of-range operand: the circuit (and its matrix) consists of the accepted gates only
+    from opensquirrel import CircuitBuilder as _CB8
+    from opensquirrel.circuit_matrix_calculator import get_circuit_matrix as _gcm8
+    import opensquirrel.default_gates as _dg8
+    for n_ in (1, 2, 3):
+        b_ = _CB8(n_); acc = []
+        for nm_, ops_ in (("H", (0,)), ("X", (n_,)), ("CNOT", (0, n_ + 3)), ("Y", (n_ - 1,)), ("CZ", (n_, 0)), ("X", (-1,)), ("S", (0,))):
+            try:
+                getattr(b_, nm_)(*ops_); acc.append(W.w_stmt(getattr(_dg8, nm_)(*ops_)))
+            except Exception:
+                pass
+        run.count({"builder-refusal": n_}, tag="builder-refusal")
+        wc_ = W.w_circuit(b_.to_circuit())
+        if W.diff(wc_["stmts"], acc, 0.0): run.violation(f"after refused calls the builder's circuit is not the list of accepted gates ({len(wc_['stmts'])} statements, {len(acc)} accepted)", {"n": n_})
+        else:
+            try:
+                A_ = _gcm8(b_.to_circuit()); B_ = R.circ_matrix(acc, n_)
+                if float(np.abs(A_ - B_).max()) > 1e-8: run.violation("circuit matrix of a builder that refused calls differs from the product of the accepted gates", {"n": n_})
+            except Exception as ex:
+                run.violation(f"circuit matrix of a builder that refused calls raised {O.err_name(ex)}", {"n": n_})
     # circuits: product in program order
     cc = []
     for _ in range(run.n(40, 600)):
@@ -528,6 +571,12 @@ def check_C15(run: Run):
             for others in ((0.0, 1.0), (1.0, 0.0), (1.0, 2.0), (0.0, 0.0), (1e-200, 1.0), (1e200, 1.0), (-1.0, -1.0)):
                 v = list(others); v.insert(pos, bad); axes.append(tuple(v))
     axes += [tuple(rng.uniform(-1, 1) * 10.0 ** rng.randint(-20, 20) for _ in range(3)) for _ in range(run.n(60, 1500))]
+    # axes of extreme norm (the constructor rescales them first), every sign pattern, the dominant component negative as often as not
+    for e_ in (-300, -250, -160, -101, 101, 150, 250, 300):
+        for sg in itertools.product((1.0, -1.0), repeat=3):
+            if rng.random() < run.n(0.5, 1.0):
+                axes.append(tuple(s_ * rng.uniform(0.1, 1) * 10.0 ** (e_ + rng.choice([0, 0, -1, -3])) for s_ in sg))
+        axes += [(-10.0 ** e_, 0.0, 0.0), (0.0, -10.0 ** e_, 0.0), (0.0, 0.0, -10.0 ** e_), (10.0 ** (e_ - 1), -3 * 10.0 ** e_, 2 * 10.0 ** e_)]
     cases = []
     for ax in axes:
         for _ in range(run.n(2, 4)):
@@ -576,6 +625,18 @@ def check_C15(run: Run):
         if mm is not None and (r["err"] is None) != (mm["err"] is None): run.mismatch(f"MatrixGate(ops={c['ops']}) {r['err']} vs model {mm['err']}", c)
         if (r["err"] is None) != good: run.violation(f"MatrixGate with operands {c['ops']} {'accepted' if r['err'] is None else 'refused'}", c)
         if r["err"] not in (None, "ValueError"): run.violation(f"MatrixGate with operands {c['ops']} raised {r['err']}", c)
+    # any array that is not 2^k x 2^k for the k operands given: also those whose first dimension alone is right
+    from opensquirrel.ir import MatrixGate as _MG15
+    for ops_, shape in [([0, 1], (4,)), ([0, 1], (4, 2)), ([0, 1], (4, 3)), ([0, 1], (4, 8)), ([0, 1], (4, 4, 1)), ([0, 1], (4, 1)), ([0, 1], (2, 4)), ([0, 1], (1, 4, 4)),
+                        ([0, 1, 2], (8, 4)), ([0, 1, 2], (8,)), ([0, 1, 2], (8, 16)), ([0, 1, 2, 3], (16, 8)), ([0, 1], ())]:
+        run.count({"matrix-shape": list(shape), "ops": ops_}, tag="matrix-shape")
+        try:
+            _MG15(np.ones(shape, dtype=complex) if shape else np.complex128(1.0), ops_)
+            run.violation(f"MatrixGate accepted an array of shape {shape} for {len(ops_)} operands", {"shape": list(shape), "ops": ops_})
+        except (ValueError, TypeError):
+            pass
+        except Exception as ex:
+            run.violation(f"MatrixGate with an array of shape {shape} raised {O.err_name(ex)}", {"shape": list(shape)})
     for dim, shape in [(4, (2, 8)), (4, (16, 1)), (2, (2, 2)), (8, (8, 8))]:
         m = [(1.0, 0.0)] * (shape[0] * shape[1])
         r = O.impl_mkmatrix([0, 1], dim, m, shape)
@@ -835,8 +896,9 @@ def snapshot_globals():
 
 def check_C17(run: Run):
     redefinition_check(run, False)
-    from shared import snapshot_independence
+    from shared import snapshot_independence, mapper_reuse
     snapshot_independence(run)
+    mapper_reuse(run)
     rng = random.Random(run.seed * 113 + 127)
     pool = pipeline_pool()
     ref = {}
